@@ -305,7 +305,15 @@ func (t *opTable) genOp(r *rng) roOp {
 		enc := []int{3, 5, 6, 7, 7}[r.intn(5)]
 		mode := r.intn(1 << 12)
 		return roOp{free: 5, recv: enc, method: mode, desc: fmt.Sprintf("SaveNetwork(net,enc=%d,failing writers mode=%d)", enc, mode), class: "SaveNetworkFailingWriters"}
-	case k < 11:
+	case k < 9:
+		// Markdown / DBC export into a writer that fails
+		mode := r.intn(13)
+		if r.chance(60) {
+			return roOp{free: 6, method: mode, desc: fmt.Sprintf("ExportToMarkdown(net,failing writer mode=%d)", mode), class: "ExportToMarkdownFailingWriter"}
+		}
+		b := r.intn(len(t.w.buses))
+		return roOp{free: 7, recv: b, method: mode, desc: fmt.Sprintf("ExportBus(bus#%d,failing writer mode=%d)", b, mode), class: "ExportBusFailingWriter"}
+	case k < 12:
 		b := r.intn(len(t.w.buses))
 		dc := []int{-1, 0, 1, 8, 64, 1024}[r.intn(6)]
 		return roOp{free: 4, recv: b, method: dc, desc: fmt.Sprintf("CalculateBusLoad(bus#%d,%d)", b, dc), class: "CalculateBusLoad"}
@@ -378,6 +386,19 @@ func (t *opTable) run(op roOp) (res string) {
 			msg = "ERR(" + err.Error() + ")"
 		}
 		return fmt.Sprintf("%s|%d,%d,%d", msg, ws[0].n, ws[1].n, ws[2].n)
+	case 6:
+		fw := newFailWriter(0, op.method)
+		err := acmelib.ExportToMarkdown(t.w.net, fw)
+		msg := "ok"
+		if err != nil {
+			msg = "ERR"
+		}
+		return fmt.Sprintf("%s|%d", msg, fw.n)
+	case 7:
+		// the DBC writer panics on a failing writer (recovered by this runner, also sequentially)
+		fw := newFailWriter(0, op.method)
+		acmelib.ExportBus(fw, t.w.buses[op.recv])
+		return fmt.Sprintf("ok|%d", fw.n)
 	case 4:
 		pct, loads, err := acmelib.CalculateBusLoad(t.w.buses[op.recv], op.method)
 		var ls []string
